@@ -60,4 +60,43 @@ PLANS = {
         "components": {"real": ["stream.InternallyConsistentOutputStreamWrapper"], "stub": ["source (scripted)", "sink (collecting)"]},
         "assumptions": ["multiset model in /verif/sim/model.go"],
     },
+    "C14": {
+        "level": "exploration",
+        "technique": "deterministic simulation (weakest fit: sequential object; the simulated nondeterminism is the delivery order of additions and retractions): seeded prefix-valid histories, step-by-step refinement against a from-scratch aggregate",
+        "level_text": ("seeded exploration of prefix-valid add/retract histories over edge-heavy domains for every registered aggregate descriptor "
+                       "(count, sum, avg, min, max, array_agg and the _distinct variants x int/float/duration/time/any); after every step with a non-empty net multiset "
+                       "Trigger() must equal the aggregate recomputed from scratch (float sums within eps*n*sum|x| of the history)"),
+        "level_note": "trusted: from-scratch aggregate definitions in /verif/sim/c14.go; NaN excluded everywhere and -0.0 excluded from _distinct histories (ordering/hash agreement of those values is C09, not on trial here); float magnitudes kept below overflow",
+        "parts": [{"check": "c14", "quick": 200000, "thorough": 20000000}],
+        "rule": "each run draws an aggregate descriptor and a history (<=10 steps quick, <=40 thorough; retractions only of present values); non-trivial = >=2 steps; distinct = distinct (aggregate+type, full history) pairs",
+        "components": {"real": ["every Prototype() in aggregates.Aggregates"], "stub": ["the group-by around the aggregate (histories are fed directly)"]},
+        "assumptions": ["histories never dip below zero multiplicity (what a group-by can receive given C15)"],
+    },
+    "C17": {
+        "level": "exploration",
+        "technique": "deterministic simulation: seeded event histories (records, retractions, watermarks, end of stream) against (a) the real trigger objects vs a reference trigger model polled after every event and (b) the real CustomTriggerGroupBy with required-emission and justified-emission monitors",
+        "level_text": ("seeded exploration over every trigger combination (COUNTING n in 1..4, ON WATERMARK, ON END OF STREAM, all subsets): (a) trigger objects are polled after every event "
+                       "and must fire exactly the keys a reference trigger model fires; (b) at node level, after the n-th, 2n-th ... record of a key the output must hold its current result, at the instant a "
+                       "watermark W is forwarded the output must hold the current result of every key with key time <= W, every emission before end of stream must be justified by a configured trigger, "
+                       "and ON END OF STREAM alone emits every remaining key exactly once at the end"),
+        "level_note": ("trusted: reference trigger model and per-key batch aggregate in /verif/sim/c17.go; the processing order behind the group-by's event-time buffer is taken from C18's buffer specification. "
+                       "Deliberately not flagged: the end-of-stream flush of a counting-only group-by and redundant retract/re-emit of an unchanged result"),
+        "parts": [{"check": "c17", "quick": 120000, "thorough": 8000000}],
+        "rule": "each run draws a trigger configuration and an event history (<=10 events quick, <=32 thorough; late keys included at object level); non-trivial = >=2 events; distinct = distinct (config+shape, full history) pairs",
+        "components": {"real": ["execution.CountingTrigger/WatermarkTrigger/EndOfStreamTrigger/MultiTrigger", "nodes.CustomTriggerGroupBy", "nodes.EventTimeBuffer", "aggregates count/sum"],
+                       "stub": ["source (scripted)", "sink (collecting)"]},
+        "assumptions": ["input changelogs are valid and carry no late records; a row's event time is its time column"],
+    },
+    "C16": {
+        "level": "exploration",
+        "technique": "deterministic simulation: SQL GROUP BY ... TRIGGER ... through the real planner over a scripted watermarked changelog source; seeded histories x every trigger subset; batch-grouping oracle at end of stream",
+        "level_text": ("seeded exploration of watermarked/batch changelogs with retractions x every TRIGGER combination (COUNTING n in 1..4, ON WATERMARK, ON END OF STREAM, all subsets, and no clause) "
+                       "x grouping with/without the time field x optimiser on/off, planned from SQL text by the real parser/typechecker/optimiser; consolidated output at end of stream must equal the batch grouping"),
+        "level_note": "trusted: reference batch group-by (count/sum/min over non-NULL inputs, NULL for an all-NULL group); aggregates limited to count/sum/min so that the verdict is about triggers, not C14",
+        "parts": [{"check": "c16", "quick": 60000, "thorough": 4000000}],
+        "rule": "each run draws a trigger configuration, key shape, optimiser flag and a valid changelog (<=8 steps quick, <=24 thorough); non-trivial = >=2 messages; distinct = distinct (config+shape, full script) pairs",
+        "components": {"real": ["sqlparser", "parser (ParseTrigger)", "logical.GroupBy typecheck", "optimizer", "physical.Materialize", "nodes.SimpleGroupBy/CustomTriggerGroupBy/EventTimeBuffer/Map", "triggers", "aggregates count/sum/min"],
+                       "stub": ["table source (sim database, scripted)", "sink (collecting)"]},
+        "assumptions": ["input changelogs are valid, a record's event time equals its time column, no late records"],
+    },
 }
